@@ -1079,6 +1079,25 @@ pub fn analyse(case: &RegCase, res: &RunResult) -> CaseReport {
             }
         }
         let _ = consistent;
+        // ... and false only when it is not: a completed unregister(id) that returned false
+        // although the action's registration had returned before it was called and nothing that
+        // could have removed the action had even begun before it returned
+        for o in ops.iter().filter(|o| o.name == "unregister" && o.ret.is_some() && o.result == 0 && !o.panicked) {
+            let tag = o.a;
+            let reg = ops.iter().find(|r| r.name == "register" && r.b == tag && r.result == 1);
+            if let Some(rg) = reg {
+                let registered_before = rg.ret.map_or(false, |x| x < o.call);
+                let sig = rg.a;
+                let rival = ops.iter().any(|x| !std::ptr::eq(x, o) && ((x.name == "unregister" && x.a == tag) || (x.name == "unregister_signal" && x.a == sig)) && x.call < o.ret.unwrap());
+                if registered_before && !rival {
+                    rep.viol("C05/ret@unregister", format!("unregister of action {} returned false although the action was registered and nobody else was removing it (it stays registered)", tag));
+                    let oret = o.ret.unwrap();
+                    if dels.iter().any(|d| d.start > oret && d.runs.iter().any(|(t, _, _)| *t == tag)) {
+                        rep.viol("C01/ran-after-removal", format!("action {} ran in a delivery that began after its removal by id had returned (the call claimed the action was not registered and left it in place)", tag));
+                    }
+                }
+            }
+        }
         // actions that run although the model says they were removed before the delivery began
         if model_ok && completed {
             for d in dels.iter().filter(|d| d.target == 1) {
